@@ -32,6 +32,13 @@ class ExprMixin:
       return PyStr(v)
     raise Unsupported('constant %r' % (v,))
 
+  def ev_JoinedStr(self, e):
+    # an f-string: some string (message text); its parts are evaluated for their obligations only
+    for part in e.values:
+      if isinstance(part, ast.FormattedValue):
+        self.eval(part.value)
+    return V(S.STR, S.STR.fresh('fstring'))
+
   def ev_Name(self, e):
     return self.lookup(e.id, e)
 
@@ -227,6 +234,10 @@ class ExprMixin:
       return V(S.BOOL, z3.And(t, r.t) if is_and else z3.Or(t, r.t))
     if isinstance(first, V) and isinstance(r, V) and first.sort is r.sort:
       return V(r.sort, z3.If(t, r.t, first.t) if is_and else z3.If(t, first.t, r.t))
+    if (not is_and and isinstance(first, V) and isinstance(first.sort, S.Opt) and isinstance(r, V)
+        and first.sort.inner is r.sort):
+      # `maybe_none or default`: the value itself when it is truthy, else the default
+      return V(r.sort, z3.If(t, first.sort.val(first.t), r.t))
     # mixed kinds: only truthiness is meaningful
     rt = self.truth(r)
     return V(S.BOOL, z3.And(t, rt) if is_and else z3.Or(t, rt))
@@ -447,6 +458,11 @@ class ExprMixin:
       mm = self.theory.method_models.get((s.name, '__contains__'))
       if mm:
         return self.truth(mm(self, cont, [x], {}))
+      if isinstance(s, S.Rec):
+        # a record bound to a class that defines __contains__: through its contract
+        fr = self.rec_method(cont, '__contains__', None)
+        if fr is not None:
+          return self.truth(self.call_func(fr, [x], {}, None))
     if isinstance(cont, Obj):
       q = cont.module.resolve_method(cont.clsname, '__contains__')
       if q:
